@@ -171,12 +171,11 @@ Theorem C12_sound_refuted : exists G icd roots R,
   parse G icd roots = RErr KDupName.
 Proof.
   exists [f_reserved_const], false, [0%nat], [0%nat]. split.
-  - split; [repeat constructor; intros []|]. intros j. split.
-    + intros [<-|[]]. apply reach_root. left. reflexivity.
-    + intros H. induction H as [r Hr|j f k _ IH Hf Hk]; [exact Hr|].
-      destruct IH as [<-|[]]. simpl in Hf. inversion Hf; subst. destruct Hk.
-  - split; [constructor; vm_compute; repeat constructor; simpl; intuition discriminate|].
-    split; [vm_compute; repeat constructor|]. split; [vm_compute; repeat constructor|]. vm_compute. reflexivity.
+  - pose proof (trace_enumerates [f_reserved_const] [0%nat]) as T.
+    replace (files_of (trace [f_reserved_const] [0%nat])) with [0%nat] in T by (vm_compute; reflexivity). exact T.
+  - split; [apply cf_b_sound; vm_compute; reflexivity|].
+    split; [apply forallb_Forall; vm_compute; reflexivity|].
+    split; [apply forallb_Forall; vm_compute; reflexivity|]. vm_compute. reflexivity.
 Qed.
 Example C12_sound_refuted_other_order :
   let child := mkFile false [] [] [] [] [] [] [] [MReserved [RInt 5; RRange 7 9]] in
@@ -218,9 +217,11 @@ Example C12_ex_diamond_once :
             map snd (msgs s) = [5; 6; 9; 20; 21; 22; 1].
 Proof.
   split.
-  - destruct (trace_enumerates ex_diamond [0%nat]) as [N I]. split; [exact N|exact I].
-  - split; [constructor; vm_compute; repeat constructor; simpl; intuition discriminate|].
-    split; [vm_compute; repeat constructor|]. eexists. repeat split; vm_compute; reflexivity.
+  - pose proof (trace_enumerates ex_diamond [0%nat]) as T.
+    replace (files_of (trace ex_diamond [0%nat])) with [0; 1; 3; 2]%nat in T by (vm_compute; reflexivity). exact T.
+  - split; [apply cf_b_sound; vm_compute; reflexivity|].
+    split; [apply forallb_Forall; vm_compute; reflexivity|].
+    eexists. split; [vm_compute; reflexivity|]. split; vm_compute; reflexivity.
 Qed.
 
 (* cycle 0 -> 1 -> 0, and a self import: accepted, each file once *)
